@@ -69,6 +69,13 @@ ATOMS: dict[str, tuple[str, tuple]] = {
     "i_until_peek": ("(!PEEK ~ ANY)*", ("until", ())),
     "i_until_peek_b": ('(!(PEEK | "b") ~ ANY)*', ("until", ("b",))),
     "i_until_b_peek": ('(!("b" | PEEK) ~ ANY)*', ("until", ("b",))),
+    # ordered choices of literals with a stack operation in a nested group (what the optimizer's
+    # choice-squashing pass has to leave alone): the transition is the definition of `|`
+    "i_lits_or_pop": ('"b" | "aa" | ("ab" | POP)', ("choice", (("lit", "b"), ("lit", "aa"), ("lit", "ab"), ("pop",)))),
+    "i_lits_or_peek": ('("ab" | "b") | PEEK | "a"', ("choice", (("lit", "ab"), ("lit", "b"), ("peek",), ("lit", "a")))),
+    "i_lit_or_drop": ('"a" | ("bb" | DROP)', ("choice", (("lit", "a"), ("lit", "bb"), ("drop",)))),
+    "a_push_ci": ('PUSH(^"ab")', ("push", ("ci", "ab"))),
+    "a_push_ci1": ('PUSH(^"b")', ("push", ("ci", "b"))),
     "l_a": ('"a"', ("lit", "a")),
     "l_b": ('"b"', ("lit", "b")),
     "l_ab": ('"ab"', ("lit", "ab")),
@@ -86,6 +93,7 @@ KIND = {
     "slice": "PEEK_SLICE",
     "lit": "LITERAL",
     "until": "PEEK_IDIOM",
+    "choice": "CHOICE_IDIOM",
 }
 
 
@@ -93,6 +101,8 @@ def match_simple(m, text: str, pos: int) -> int | None:
     """Reference matcher for the arguments of PUSH(e) and for literals: end or None."""
     if m[0] == "lit":
         return pos + len(m[1]) if text.startswith(m[1], pos) else None
+    if m[0] == "ci":
+        return pos + len(m[1]) if text[pos : pos + len(m[1])].lower() == m[1].lower() and len(text) >= pos + len(m[1]) else None
     if m[0] == "set":
         return pos + 1 if pos < len(text) and text[pos] in m[1] else None
     if m[0] == "plus":
@@ -152,6 +162,13 @@ def spec_apply(spec, text: str, pos: int, stack: list[str]):
         if text.startswith(s, pos):
             return True, pos + len(s), ([] if k == "pop_all" else stack), True
         return False, pos, stack, True
+    if k == "choice":
+        # ordered choice over terminals: the first alternative that matches wins
+        for alt in spec[1]:
+            r = spec_apply(alt, text, pos, stack)
+            if r[0]:
+                return r[0], r[1], r[2], True
+        return False, pos, stack, True
     if k == "until":
         # (!(PEEK | lits) ~ ANY)*: stop at the first offset where the top entry (if any) or
         # one of the literals starts; an empty-string top matches at once; else run to the end
@@ -202,7 +219,7 @@ def gen_toolbox(rng: random.Random) -> dict:
     use_pushx = rng.random() < 0.6
     p_nf = rng.choice((0.5, 0.7, 0.9))
     p_inl = rng.choice((0.0, 0.15, 0.3, 0.5))
-    trivia = rng.choices((None, "ws", "comment", "both", "ws_nonsilent"), (60, 12, 12, 10, 6))[0]
+    trivia = rng.choices((None, "ws", "comment", "both", "ws_nonsilent", "comment_stack", "both_stack", "ws_stack"), (56, 9, 8, 7, 5, 5, 6, 4))[0]
 
     rules: dict[str, dict] = {}
     consuming: set[str] = set(LITERALS)  # rules that consume >= 1 char whenever they succeed
@@ -447,7 +464,18 @@ def render_expr(e) -> str:
     raise ValueError(e)
 
 
-TRIVIA_RULES = {"ws": ['WHITESPACE = _{ " " }'], "comment": ['COMMENT = _{ "#" }'], "both": ['WHITESPACE = _{ " " }', 'COMMENT = _{ "#" }'], "ws_nonsilent": ['WHITESPACE = { " " }']}
+TRIVIA_RULES = {
+    "ws": ['WHITESPACE = _{ " " }'],
+    "comment": ['COMMENT = _{ "#" }'],
+    "both": ['WHITESPACE = _{ " " }', 'COMMENT = _{ "#" }'],
+    "ws_nonsilent": ['WHITESPACE = { " " }'],
+    # implicit rules that USE the stack: a comment attempt pushes before it can fail (and is
+    # balanced when it matches), so every trivia skip where no comment follows is a failed
+    # repetition iteration with a stack change inside it
+    "comment_stack": ['COMMENT = _{ PUSH_LITERAL("c") ~ "#" ~ DROP }'],
+    "both_stack": ['WHITESPACE = _{ " " }', 'COMMENT = _{ PUSH_LITERAL("c") ~ "#" ~ DROP }'],
+    "ws_stack": ['WHITESPACE = _{ PUSH_LITERAL("w") ~ " " ~ DROP }'],
+}
 
 
 def render_grammar(tb: dict) -> str:
@@ -755,9 +783,30 @@ def check_structure_O4(rec, tb, text, stats):
             return ("predicate", "predicate-changed-stack", {"rule": name, "body": render_expr(ast), "before": texts(rec["pre"]), "after": texts(rec["post"]), "result": rec["res"]})
         return None
     shapes = operands(ast)
-    if shapes is None or k == "seq":
+    if shapes is None:
         return None
     ch = rec["children"]
+    if k == "seq":
+        # CONTINUITY: in a rule that is a plain sequence of rule references nothing but those
+        # rules (and implicit trivia between them) runs.  Trivia skipping is `(WHITESPACE |
+        # COMMENT)*`; whether an attempt matches (balanced by construction in the toolbox) or
+        # fails (must be undone), it leaves the stack as it found it -- so the stack handed
+        # from one element to the next, into the first and out of the last, is unchanged.
+        if any(c.get("pre") is None or c.get("post") is None or "res" not in c for c in ch) or [c["rule"] for c in ch] != [sh[1] for sh in shapes][: len(ch)] or not ch:
+            stats["structure_skipped"] += 1
+            return None
+        stats["structure_checked"] += 1
+        pts = [("rule entry", rec["pre"], ch[0]["pre"])]
+        for a_, b_ in zip(ch, ch[1:]):
+            if not a_["res"]:
+                break
+            pts.append((f"between {a_['rule']} and {b_['rule']}", a_["post"], b_["pre"]))
+        if rec["res"] and len(ch) == len(shapes) and all(c["res"] for c in ch):
+            pts.append(("rule return", ch[-1]["post"], rec["post"]))
+        for where, x, y in pts:
+            if x != y:
+                return ("trivia", "stack-changed-between-sequence-elements", {"rule": name, "body": render_expr(ast), "where": where, "before": texts(x), "after": texts(y), "trivia": tb.get("trivia")})
+        return None
     if any(c.get("pre") is None or c.get("post") is None or "res" not in c for c in ch):
         stats["structure_skipped"] += 1
         return None
@@ -950,9 +999,11 @@ def gen_history(rng: random.Random, tb: dict):
         text = "".join(rng.choice(("a", "b", "ab", "ab", "aa", "ba")) for _ in range(max(1, tl // 2)))
     else:
         text = rng.choice(("a", "b", "ab")) * max(1, tl // 2)
+    if rng.random() < 0.25 and text:
+        text = "".join(ch.upper() if rng.random() < 0.4 else ch for ch in text)
     if tb.get("trivia") and text:
         # sprinkle implicit-trivia characters
-        chars = {"ws": " ", "ws_nonsilent": " ", "comment": "#", "both": " #"}[tb["trivia"]]
+        chars = {"ws": " ", "ws_nonsilent": " ", "comment": "#", "both": " #", "comment_stack": "#", "both_stack": " #", "ws_stack": " "}[tb["trivia"]]
         out = []
         for ch in text:
             out.append(ch)
@@ -1343,6 +1394,8 @@ class Check:
                 yield {**plan, "toolbox": {**tb, "rules": {**tb["rules"], name: {**r, "mod": ""}}}}
         if tb.get("trivia"):
             yield {**plan, "toolbox": {**tb, "trivia": None}, "text": text.replace(" ", "").replace("#", "")}
+        if text != text.lower():
+            yield {**plan, "text": text.lower()}
         # 4. simpler arguments
         for i, s in enumerate(steps):
             if s[0] == "seek" and s[1] > 0:
